@@ -1,5 +1,16 @@
 """per-property claims (source of MANIFEST.json; see tools_gen_manifest.py)"""
 CHECKS = {
+ 'C19': dict(text='static', ref='DESIGN.md 5 C19', note='n', technique='static analysis'),
+ 'C18': dict(text='static', ref='DESIGN.md 5 C18', note='n', technique='static analysis'),
+ 'C17': dict(text='static', ref='DESIGN.md 5 C17', note='n', technique='static analysis'),
+ 'C16': dict(text='static', ref='DESIGN.md 5 C16', note='n', technique='static analysis'),
+ 'C15': dict(text='static', ref='DESIGN.md 5 C15', note='n', technique='static analysis'),
+ 'C14': dict(text='static', ref='DESIGN.md 5 C14', note='n', technique='static analysis'),
+ 'C13': dict(text='static', ref='DESIGN.md 5 C13', note='n', technique='static analysis'),
+ 'C12': dict(text='static', ref='DESIGN.md 5 C12', note='n', technique='static analysis'),
+ 'C11': dict(text='static', ref='DESIGN.md 5 C11', note='n', technique='static analysis'),
+ 'C10': dict(text='static', ref='DESIGN.md 5 C10', note='n', technique='static analysis'),
+ 'C08': dict(text='static', ref='DESIGN.md 5 C08', note='n', technique='static analysis'),
  'C07': dict(text='static', ref='DESIGN.md 5 C07', note='n', technique='static analysis'),
  'C06': dict(text='static', ref='DESIGN.md 5 C06', note='n', technique='static analysis'),
  'C20': dict(text='static', ref='DESIGN.md 5 C20', note='n', technique='static analysis'),
@@ -15,4 +26,4 @@ CHECKS = {
    technique='static analysis: symbolic path tables + canonical terms compared with reference decision tables'),
 }
 NOT_APPLICABLE = {p: 'check under construction in this round (see DESIGN.md section 5); not claimed until its rules exist'
-                  for p in ['C08','C10','C11','C12','C13','C14','C15','C16','C17','C18','C19']}
+                  for p in []}
